@@ -13,7 +13,7 @@ sed -i "s|path = \"/repo\"|path = \"$MX/repo\"|; s|path = \"/repo/c-api\"|path =
 cp /verif/known_findings.json $MX/verif/
 export CARGO_NET_OFFLINE=true CARGO_TARGET_DIR=$MX/target VERIF_DIR=$MX/verif VERIF_SCALE=${VERIF_SCALE:-0.5}
 : > "$out"
-for d in /verif/seeded/*/; do
+for d in ${SEEDED_DIRS:-/verif/seeded/*/}; do
   m=$(basename $d)
   ( cd $MX/repo && git checkout -q -- . && git apply "$d/patch.diff" ) || { echo -e "$m\tAPPLY-FAILED" >> "$out"; continue; }
   ( cd $MX/harness && cargo build --offline >/dev/null 2>&1 ) || { echo -e "$m\tBUILD-FAILED" >> "$out"; continue; }
